@@ -10,7 +10,7 @@
    parso's tokens (never Guard) on every generated input. *)
 From Coq Require Import List NArith Bool Lia.
 Import ListNotations.
-Require Import Regex RegexFacts Tok TokFacts TokTiles TokShape Engine Lines Prefix PrefixTiles Tables Model.
+Require Import Regex RegexFacts Tok TokFacts TokTiles TokShape TokBlockPos Engine Lines Prefix PrefixTiles Tables Model.
 Open Scope N_scope.
 
 Lemma pseudo_shapes_ok : forallb (fun '(v, c) => shape12 (pseudo c)) colls = true.
@@ -96,6 +96,19 @@ Example C09_shape_example :
   | Tok.Ok toks => count is_indent toks = 2%nat /\ count is_dedent toks = 2%nat
   | Tok.Err _ => False end.
 Proof. vm_compute. split; reflexivity. Qed.
+
+(* ---------------- where the zero-width INDENT / DEDENT tokens are ----------------
+   (the positions of all other tokens are C03_token_positions).  Every INDENT / DEDENT token is followed - after
+   INDENT / DEDENT / ERROR_DEDENT tokens only - by a real token, and carries that token's (line, column). *)
+Theorem C09_block_tokens_at_next_real : forall v lines inds sl first toks pre t post,
+  run_tok v lines inds sl 0 first = Tok.Ok toks -> toks = pre ++ t :: post -> isblock t = true ->
+  exists bs u rest, post = bs ++ u :: rest /\ forallb (fun x => isblock x || transparent x) bs = true /\ real u = true /\ tpos u = tpos t.
+Proof.
+  intros v lines inds sl first toks pre t post H E K. unfold run_tok in H. destruct (coll_of v) as [c|] eqn:EC; [|discriminate].
+  pose proof pseudo_shapes_ok as S. rewrite forallb_forall in S. specialize (S _ (coll_of_in _ _ EC)). simpl in S.
+  eapply block_tokens_at_next_real; [eapply tok_block_positions; eassumption|exact E|exact K].
+Qed.
+Print Assumptions C09_block_tokens_at_next_real.
 
 (* ---------------- split_prefix tiles the prefix ----------------
    For the regenerated prefix regex (shape obligation below): whenever split_prefix returns parts, the concatenation
